@@ -28,10 +28,10 @@ theorem report_only_when_drained {st st' : State} {l : Label} (hD : DrainFacts)
     · simp [reportsEnd, chData, chSenderDone] at hrep
     · simp [reportsEnd, hn, hdr] at hrep
     · exfalso
-      have hne : st.rpc ≠ .next := fun hc => hnot ⟨hc, hD.drains⟩
+      have hne : st.rpc.isNext = false := by simpa [hD.drains] using hnot
       cases hrpc : st.rpc with
       | idle => simp [hrpc, rtableOf] at htab
-      | next => exact hne hrpc
+      | next p => simp [hrpc, RPc.isNext] at hne
       | drain =>
         rw [hrpc] at htab
         simp only [rtableOf] at htab
@@ -80,15 +80,15 @@ theorem endReported_step {st st' : State} {l : Label} (hs : step st l = some st'
     obtain ⟨sd, m, _, _, _, hcase⟩ := step_sender hs
     rcases hcase with ⟨rfl, _⟩ | ⟨ch, rfl, _, rfl⟩ <;> exact Or.inl rfl
   | handoff i => obtain ⟨sd, m, _, _, _, rfl⟩ := step_handoff hs; exact Or.inl rfl
+  | park i => obtain ⟨sd, m, _, _, _, rfl⟩ := step_park hs; exact Or.inl rfl
+  | parkRecv => obtain ⟨_, _, rfl⟩ := step_parkRecv hs; exact Or.inl rfl
   | recv a =>
     obtain ⟨_, hcase⟩ := step_recv hs
     rcases hcase with ⟨m, rest, _, _, rfl⟩ | ⟨_, _, _, _, rfl⟩ | ⟨rfl, _, hnot, rfl⟩ | ⟨ch, _, _, _, rfl⟩ | ⟨rfl, _, _, rfl⟩
     · exact Or.inl rfl
     · exact Or.inl rfl
     · refine Or.inr ⟨?_, rfl⟩
-      simp only [reportsEnd, chSenderDone, beq_self_eq_true, Bool.true_and, Bool.not_eq_eq_eq_not, Bool.not_true,
-        decide_eq_false_iff_not]
-      exact hnot
+      simp [reportsEnd, chSenderDone, hnot]
     · exact Or.inl rfl
     · exact Or.inr ⟨rfl, rfl⟩
 
@@ -137,6 +137,12 @@ theorem monotone_step {st st' : State} {l : Label} (hs : step st l = some st') :
     · simp [commit, State.setSender, h]
     · show x ∈ st.delivered ++ [m]
       simp [hx]
+  | park i =>
+    obtain ⟨sd, m, _, _, _, rfl⟩ := step_park hs
+    exact ⟨fun h => ⟨h, rfl, rfl⟩, fun m hm => hm⟩
+  | parkRecv =>
+    obtain ⟨_, _, rfl⟩ := step_parkRecv hs
+    exact ⟨fun h => ⟨h, rfl, rfl⟩, fun m hm => hm⟩
   | recv a =>
     obtain ⟨_, hcase⟩ := step_recv hs
     rcases hcase with ⟨m, rest, _, _, rfl⟩ | ⟨_, _, _, _, rfl⟩ | ⟨_, _, _, rfl⟩ | ⟨ch, _, _, _, rfl⟩ | ⟨_, _, _, rfl⟩
@@ -251,6 +257,14 @@ theorem settled_step {st st' : State} {l : Label} (h : Settled st) (hl : startsS
     exfalso
     obtain ⟨sd, m, hsdi, hm, _⟩ := step_handoff hs
     rw [quiet_no_sender_step hq hsdi] at hm; simp at hm
+  | park i =>
+    exfalso
+    obtain ⟨sd, m, hsdi, hpc, _⟩ := step_park hs
+    have := quiet_no_sender_step hq hsdi
+    simp [hpc, SPc.msg?] at this
+  | parkRecv =>
+    obtain ⟨_, _, rfl⟩ := step_parkRecv hs
+    exact ⟨⟨hsd, hbuf, hq⟩, rfl⟩
   | recv a =>
     obtain ⟨_, hcase⟩ := step_recv hs
     rcases hcase with ⟨m, rest, _, hb, _⟩ | ⟨_, _, _, _, rfl⟩ | ⟨_, _, _, rfl⟩ | ⟨ch, _, _, _, rfl⟩ | ⟨_, _, _, rfl⟩
